@@ -35,13 +35,17 @@ Local Open Scope Z_scope.
 
 (** ---- byte stream -> lines (bufio.Reader.ReadString('\n')) ---- *)
 
+(** list reversal in linear time (List.rev is quadratic under vm_compute; the
+    correspondence check evaluates the model on lines of 20000 octets) *)
+Definition frev (l : str) : str := rev_append l [].
+
 (** complete lines (each ends in LF) and the unterminated tail *)
 Fixpoint split_lines_aux (s cur : str) : list str * str :=
   match s with
-  | [] => ([], rev cur)
+  | [] => ([], frev cur)
   | c :: s' =>
       if Ascii.eqb c LF
-      then let '(ls, t) := split_lines_aux s' [] in (rev (c :: cur) :: ls, t)
+      then let '(ls, t) := split_lines_aux s' [] in (frev (c :: cur) :: ls, t)
       else split_lines_aux s' (c :: cur)
   end.
 Definition split_lines (s : str) : list str * str := split_lines_aux s [].
@@ -268,6 +272,44 @@ Section Oracles.
         let '(s', m', evs, quit) := step c s m l in
         if quit then (evs, Some ls')
         else let '(e, r) := run c s' m' ls' in (evs ++ e, r)
+    end.
+
+  (** the same while the connection stays open: what has been written once the
+      complete lines [ls] have been processed and the server waits for more
+      input (no EOF, hence no 554 for an unterminated message) *)
+  Fixpoint run_open (c : cfg) (s : st) (m : mode) (ls : list str) : list ev :=
+    match ls with
+    | [] => []
+    | l :: ls' =>
+        let '(s', m', evs, quit) := step c s m l in
+        if quit then evs else evs ++ run_open c s' m' ls'
+    end.
+
+  (** ---- the write side: bufio.Writer behind sendRawResponse ----
+      [w_buf]: replies written into the buffer and not flushed; [w_sent]: what
+      has reached the client.  [flushes rest]: does sendRawResponse flush, given
+      the lines [rest] of the client's write that are still unread?  raven's
+      sendRawResponse is "WriteString; Flush": [always_flush]. *)
+  Record wr := { w_buf : list ev; w_sent : list ev }.
+  Definition wr0 : wr := {| w_buf := []; w_sent := [] |}.
+  Definition always_flush : list str -> bool := fun _ => true.
+
+  Definition send (flushes : list str -> bool) (rest : list str) (w : wr) (evs : list ev) : wr :=
+    match evs with
+    | [] => w
+    | _ => if flushes rest
+           then {| w_buf := []; w_sent := w_sent w ++ w_buf w ++ evs |}
+           else {| w_buf := w_buf w ++ evs; w_sent := w_sent w |}
+    end.
+
+  (** Handle over the lines of one client write, with the writer *)
+  Fixpoint run_io (flushes : list str -> bool) (c : cfg) (s : st) (m : mode) (w : wr) (ls : list str) : wr :=
+    match ls with
+    | [] => w
+    | l :: ls' =>
+        let '(s', m', evs, quit) := step c s m l in
+        let w' := send flushes ls' w evs in
+        if quit then w' else run_io flushes c s' m' w' ls'
     end.
 
   (** the states passed through (used to state invariants) *)
